@@ -283,6 +283,65 @@ def mutate_line(rng, line, names):
 
 
 # ---------------------------------------------------------------------------
+# known-finding streams: metamorphic pairs (variant, neutral) whose diagnostics must be equal
+
+SEPARATORS = ["\x0c", "\x1c", "\x1d", "\x1e", "\x85", "\u2028"]
+
+
+def guard_text_outside_comment(text):
+    """Decidable guard of C11-ignore-text-in-string: the ignore text occurs outside a COMMENT token."""
+    import io
+    import tokenize
+
+    comment_spans = collections.defaultdict(list)
+    try:
+        for tok in tokenize.generate_tokens(io.StringIO(text).readline):
+            if tok.type == tokenize.COMMENT:
+                comment_spans[tok.start[0]].append((tok.start[1], tok.end[1]))
+    except (tokenize.TokenError, SyntaxError, IndentationError):
+        return False
+    for i, l in enumerate(text.split("\n"), 1):
+        for m in re.finditer(re.escape(IGNORE), l):
+            if not any(a <= m.start() and m.end() <= b for a, b in comment_spans.get(i, ())):
+                return True
+    return False
+
+
+def guard_splitlines_mismatch(text):
+    """Decidable guard of C11-splitlines-vs-tokenizer: str.splitlines() splits inside a physical line."""
+    return any(any(sep in l for sep in SEPARATORS + ["\x0b", "\u2029", "\r"]) for l in text.split("\n"))
+
+
+def special_pairs(rng, n):
+    """-> [(finding id, variant text, neutral text)]"""
+    out = []
+    for i in range(n):
+        k = rng.randrange(1000)
+        pre = "".join(rng.choice(["import os\n", "# header\n", ""]) for _ in range(2))
+        kind = i % 4
+        if kind == 0:  # ignore text inside a one-line string literal, next to a diagnostic
+            tc = rng.choice(["", "[undefined_name]", "[bad_unpack]"])
+            body = f"    s{k} = '{{}}'; print(undef_{k}, s{k})\n"
+            out.append(("C11-ignore-text-in-string", pre + f"def f{k}():\n" + body.format(IGNORE + tc) + "    return 1\n",
+                        pre + f"def f{k}():\n" + body.format("# static analysis: ignorf" + tc) + "    return 1\n"))
+        elif kind == 1:  # ignore text on its own line inside a triple-quoted string, before a diagnostic
+            body = "    s{k} = \'\'\'\n    {t}\n\'\'\'\n    print(undef_{k}, s{k})\n"
+            out.append(("C11-ignore-text-in-string", pre + f"def f{k}():\n" + body.format(k=k, t=IGNORE),
+                        pre + f"def f{k}():\n" + body.format(k=k, t="# static analysis: ignorf")))
+        else:  # a separator that only str.splitlines() honours, inside a string literal, before a used comment
+            sep = rng.choice(SEPARATORS)
+            form = rng.choice(["trail", "own"])
+            tc = rng.choice(["", "[undefined_name]"])
+            use = (f"    print(undef_{k})  {IGNORE}{tc}\n" if form == "trail" else f"    {IGNORE}{tc}\n    print(undef_{k})\n")
+            body = f"    s{k} = 'a{{}}b'\n" + use + f"    return s{k}\n"
+            out.append(("C11-splitlines-vs-tokenizer", pre + f"def f{k}():\n" + body.format(sep), pre + f"def f{k}():\n" + body.format("-")))
+    return out
+
+
+GUARDS = {"C11-ignore-text-in-string": guard_text_outside_comment, "C11-splitlines-vs-tokenizer": guard_splitlines_mismatch}
+
+
+# ---------------------------------------------------------------------------
 
 def gen_files():
     return tr_lines.gen_files(str(lib.REPO))
@@ -424,7 +483,10 @@ def run(tier: str, replay: str | None = None):
         bases.append((lines, tags))
         return len(bases) - 1
 
-    if replay:
+    specials = []
+    if replay and "special" in json.loads(Path(replay).read_text())["input"]:
+        specials = [tuple(json.loads(Path(replay).read_text())["input"]["special"])]
+    elif replay:
         r = json.loads(Path(replay).read_text())
         c = r["input"]
         b = add_base(c["base_lines"], c.get("tags") or ["to"] * len(c["base_lines"]))
@@ -434,6 +496,7 @@ def run(tier: str, replay: str | None = None):
             b = add_base(c["base_lines"], c.get("tags") or ["to"] * len(c["base_lines"]))
             variants.append({"base": b, "cfg": c["cfg"], "edits": [tuple(e) for e in c["edits"]], "baseline_cfg": c.get("baseline_cfg")})
         n_prog = 26 if tier == "quick" else 160
+        specials = special_pairs(rng, 8 if tier == "quick" else 48)
         for pi in range(n_prog):
             lines, tags = gen_program(rng, size=1 if pi < 6 else None)
             add_base(lines, tags)
@@ -490,13 +553,21 @@ def run(tier: str, replay: str | None = None):
         v["new_lines"], v["newpos"], v["comments"] = new, newpos, comments
         jobs.append(("\n".join(new) + "\n", v["cfg"]))
         job_meta.append(("variant", vi))
+    for si, (fid, vt, nt) in enumerate(specials):
+        jobs.append((vt, base_cfg))
+        job_meta.append(("special_v", si))
+        jobs.append((nt, base_cfg))
+        job_meta.append(("special_n", si))
     results = lines_impl.pool_map(jobs)
+    special_res = {}
     cfg_base_out = {}
     for (kind, ref), r in zip(job_meta, results):
         if kind == "baseline":
             cfg_base_out[ref] = r
-        else:
+        elif kind == "variant":
             variants[ref]["res"] = r
+        else:
+            special_res[(kind, ref)] = r
 
     # 4. verdicts: oracle (property on the implementation)
     failing = []
@@ -572,8 +643,12 @@ def run(tier: str, replay: str | None = None):
                             "input": {"base_lines": bases[bi][0], "tags": bases[bi][1], "cfg": v["cfg"], "edits": [list(e) for e in v["edits"]]},
                             "text": v["new_lines"], "baseline": [list(d) for d in d0], "observed": r["out"], **bad})
 
+    for si, (fid, vt, nt) in enumerate(specials):
+        queue_model(("special", si), vt.splitlines(), base_cfg, special_res[("special_v", si)])
+
     # 5. correspondence: model vs implementation on the recorded raw streams
     corr_mismatch = []
+    special_model_agrees = {}
     n_model = 0
     if exe is not None and model_lines:
         try:
@@ -581,6 +656,8 @@ def run(tier: str, replay: str | None = None):
             for (tag, lines, cfg, r), o in zip(model_meta, outs):
                 n_model += 1
                 m = dec_emit(o, static_names)
+                if tag[0] == "special":
+                    special_model_agrees[tag[1]] = (m == r["out"])
                 if m != r["out"]:
                     corr_mismatch.append({"tag": list(tag), "text": lines, "cfg": cfg, "impl": r["out"], "model": m, "raw": r["raw"]})
         except RuntimeError as ex:
@@ -614,6 +691,25 @@ def run(tier: str, replay: str | None = None):
                     feat_mismatch.append({"codepoint": n, "model": o, "python": chr(n).isspace()})
         except RuntimeError as ex:
             rep.violation({"kind": "broken-correspondence", "correspondence": "Text.* vs re/str", "detail": str(ex)[-1500:]}, no_failing_input=True)
+
+    # known-finding streams: the diagnostics of variant and neutral text must be equal
+    known_ids = {k["id"]: k for k in lib.load_known_findings(PROP)["findings"]}
+    for si, (fid, vt, nt) in enumerate(specials):
+        rv, rn = special_res[("special_v", si)], special_res[("special_n", si)]
+        if rv["error"] or rn["error"]:
+            harness_problems.append(f"special {fid}: {(rv['error'] or rn['error'])[:300]}")
+            continue
+        n_oracle += 1
+        if collections.Counter(map(tuple, rv["out"])) == collections.Counter(map(tuple, rn["out"])):
+            hist["special_equal"] += 1
+            continue
+        hist["special_differs_" + fid] += 1
+        if fid in known_ids and GUARDS[fid](vt) and not GUARDS[fid](nt) and special_model_agrees.get(si):
+            rep.known(fid, known_ids[fid]["what"])
+        else:
+            failing.append({"kind": "failing-input", "what": "diagnostics change when only the content of a string literal changes",
+                            "input": {"special": [fid, vt, nt], "cfg": base_cfg}, "observed": rv["out"], "expected": rn["out"],
+                            "guard_holds": bool(GUARDS[fid](vt)), "model_agrees_with_impl": special_model_agrees.get(si)})
 
     # 6. report
     for f in failing[:10]:
